@@ -24,7 +24,52 @@ RULE = ("random layouts (1-2 axes + 0-2 extra dims), dimension coordinates prese
         "non-trivial = the dataset has a non-dimension coordinate or a missing dimension coordinate; distinct by case")
 
 
+def gen_faces_case(rng, tier, i):
+    """the name of the result on a face-connected grid (scalar and vector inputs; across an axis-swapping link
+    the halo comes from the OTHER component, whose name must not leak)"""
+    import facegrid as fg
+    nf = rng.randint(2, 4)
+    return {"kind": "faces", "nf": nf, "N": rng.randint(2, 3), "tbl": {str(f): v for f, v in fg.random_links(rng, nf).items()},
+            "vec": rng.random() < 0.7, "axis": rng.choice(["X", "Y"]), "op": rng.choice(["diff", "interp", "min", "max"]),
+            "seed": rng.randrange(1 << 30)}
+
+
+def eval_faces(case):
+    import random
+    import warnings
+
+    import facegrid as fg
+    rr = random.Random(case["seed"])
+    nf, N = case["nf"], case["N"]
+    tbl = {int(f): v for f, v in case["tbl"].items()}
+    ds = fg.dataset(nf, N, [])
+    grid = fg.make_grid(ds, tbl, {"X": "fill", "Y": "extend"}, {"X": 0.0, "Y": 0.0})
+    ax = case["axis"]
+    if case["vec"]:
+        cd, od = (("xg", "yc"), ("xc", "yg")) if ax == "X" else (("xc", "yg"), ("xg", "yc"))
+        comp = xr.DataArray(dyadic_array(rr, [nf, N, N]), dims=["face", *cd], name="mine")
+        other = xr.DataArray(dyadic_array(rr, [nf, N, N]), dims=["face", *od], name="partner")
+        arg, kw = {ax: comp}, {"other_component": {("Y" if ax == "X" else "X"): other}}
+        if case["op"] in ("min", "max"):
+            case = dict(case, op="diff")
+    else:
+        comp = xr.DataArray(dyadic_array(rr, [nf, N, N]), dims=["face", "xc", "yc"], name="mine")
+        arg, kw = comp, {"to": "left"}
+    with warnings.catch_warnings():
+        warnings.simplefilter("ignore")
+        try:
+            res = getattr(grid, case["op"])(arg, ax, **kw)
+        except Exception as e:  # noqa: BLE001
+            return {"corr_ok": True, "prop_ok": False, "branch": "faces:refused", "detail": {"impl": exc_kind(e) + ": " + str(e)[:120]}}
+    ok = res.name == "mine"
+    kinds = sorted(fg.link_kinds(tbl))
+    return {"corr_ok": True, "prop_ok": ok, "branch": "faces:" + ("vec" if case["vec"] else "sca"),
+            "detail": None if ok else {"name": res.name, "expected": "mine", "link_kinds": kinds}}
+
+
 def gen_case(rng, tier, i):
+    if rng.random() < 0.1:
+        return gen_faces_case(rng, tier, i)
     layout = Layout.random(rng, n_axes=rng.randint(1, 2), nmin=2, nmax=4, max_extra=2)
     alld = []
     for a in layout.axes:
@@ -73,6 +118,8 @@ def gen_case(rng, tier, i):
 
 
 def eval_case(case, drv):
+    if case.get("kind") == "faces":
+        return eval_faces(case)
     import random
     import warnings
 
@@ -189,4 +236,6 @@ def eval_case(case, drv):
 
 
 def nontrivial(case, verdict):
+    if case.get("kind") == "faces":
+        return True
     return bool(case["extra_coords"]) or not all(case["have_dimcoord"].values())
